@@ -75,6 +75,52 @@ def config_oracle(term, smart, w, frac):
     return None
 
 
+def probe_term(p, a, b, k, t):
+    """prefix  group(a LINE b)  [nest(k, HARDLINE t)]"""
+    items = ([('T', 'p' * p)] if p else []) + [('G', ('C', [('T', 'a' * a), ('L',), ('T', 'b' * b)]))]
+    if t is not None:
+        items.append(('Ne', k, ('C', [('H',), ('T', 't' * t)])))
+    return ('C', items)
+
+
+def probe_cases(tier, r):
+    out = []
+    ws = (6, 9, 12, 20) if tier == 'quick' else (5, 6, 8, 9, 12, 16, 20, 31)
+    for w in ws:
+        for frac in (1.0, 0.7, 0.5):
+            for p in (0, 3):
+                for a, b in ((1, 1), (2, 3), (w // 2, w // 2 - 1), (w // 2, w // 2)):
+                    for k, t in ((0, None), (0, 3), (1, w), (2, w - 2), (2, w - 1), (4, w // 2), (w, 1), (w + 1, 1),
+                                 (2 * w, 2), (3, w - 3)):
+                        for smart in (True, False):
+                            out.append((p, a, b, k, t, smart, w, frac))
+    return out
+
+
+def probe_oracle(p, a, b, k, t, smart, w, frac):
+    """the general clause on the probe family, by the words of the property: the group (indentation 0,
+    starting in column p) may be broken only if its flat text passes the page or the ribbon, or - smart
+    strategy only - the following line is indented more deeply than the group's line and passes the page"""
+    import engine
+    term = probe_term(p, a, b, k, t)
+    res = EC.split_result(engine.impl_layout(docgen.to_real(term), smart, w, frac))
+    if res is None:
+        return 'the engine raised'
+    stream = laysem.parse_stream(res[0])
+    # the group's LINE is the item right after the text a...a
+    idx = next(i for i, it in enumerate(stream) if it == ('T', 'a' * a))
+    broken = stream[idx + 1][0] == 'L'
+    rw = docgen.ribbon_width(w, frac)
+    flat_end = p + a + 1 + b
+    exceeds = flat_end > w or flat_end > 0 + rw
+    pushes = smart and t is not None and k > 0 and k + t > w
+    if broken and not (exceeds or pushes):
+        return ('group broken although its line would end in column %d (page %d, ribbon %d from indentation 0)%s'
+                % (flat_end, w, rw, '' if t is None else ' and the following line (indentation %d, %d wide) %s'
+                   % (k, t, 'stays within the page' if k + t <= w else 'is not looked at by this strategy')))
+    return None
+
+
 def main(tier):
     run = Run(PROP, tier)
     built = run.build()
@@ -134,6 +180,19 @@ def main(tier):
                 small = docgen.shrink(t, lambda c: no_forced(c) and config_oracle(c, smart, w, frac) is not None)
                 run.violation({'kind': 'single-line-broken-at-config', 'term': small, 'original_term': t,
                                'smart': smart, 'width': w, 'ribbon_frac': frac, 'L': L})
+        # the general clause on a probe family whose decisions follow from the words of the property
+        nprobe = 0
+        for case in probe_cases(tier, r2):
+            if len(run.violations) >= 6:
+                break
+            nprobe += 1
+            msg = probe_oracle(*case)
+            if msg:
+                pp_, a_, b_, k_, t_, smart_, w_, frac_ = case
+                run.violation({'kind': 'probe', 'detail': msg, 'probe': list(case), 'term': probe_term(pp_, a_, b_, k_, t_),
+                               'smart': smart_, 'width': w_, 'ribbon_frac': frac_})
+        run.count(nprobe)
+        run.coverage['probe_cases'] = nprobe
         run.coverage['config_oracle_checked'] = cfg_checked
         run.coverage['single_line_checked'] = checked
         run.coverage['single_line_documents'] = single
@@ -142,7 +201,9 @@ def main(tier):
             'widths x ribbon fractions x both strategies, SDoc streams compared implementation vs model (decisions '
             'are compared through the output). Oracle on the implementation: for documents without forced breaks '
             'whose layout at width 10**6 is a single line of L columns, the layout at L..L+3 (ribbon=width) must be '
-            'that same stream. non-trivial = distinct documents whose stream differs between two configurations')
+            'that same stream; on the probe family  prefix group(a LINE b) [nest(k, HARDLINE t)]  the group may be broken '
+            'only if its flat line passes page or ribbon or (smart only) the deeper-indented following line passes the '
+            'page. non-trivial = distinct documents whose stream differs between two configurations')
         for d in dis[:3]:
             run.sample({'disagreement': d})
         for rec in results[:2] + results[-3:]:
@@ -157,6 +218,10 @@ def replay(path):
     if 'term' not in p:
         print(json.dumps(p, indent=1)[:3000])
         return 1
+    if p.get('kind') == 'probe':
+        msg = probe_oracle(*p['probe'])
+        print('oracle:', msg)
+        return 1 if msg else 0
     t = EC.detuple(p['term'])
     if p.get('kind') == 'single-line-broken-at-config':
         L = config_oracle(t, p['smart'], p['width'], p['ribbon_frac'])
